@@ -60,6 +60,12 @@ def gen_case(rng, name):
         else:
             fcs.append(float(freq[int(rng.integers(0, nf))] + rng.choice([-1, 1]) * 5e-7))   # within 1e-6 of a bin
     bw = gen_bw(rng, name, df)
+    if name != "savitzky_and_golay" and rng.random() < 0.1 and nf > 3:
+        # a bin that holds inf or NaN (a spectral ratio with an empty denominator): only the centre frequencies whose window contains that
+        # bin may be affected -- samples outside a window have no weight at all
+        rows = rows.copy()
+        rows[int(rng.integers(0, nrows)), int(rng.integers(1, nf))] = float(rng.choice([np.inf, np.nan]))
+        kind = "nonfinite"
     if order is not None:
         freq = freq[order]; rows = rows[:, order]
     case = dict(op=name, bw=bw, freq=freq.tolist(), rows=rows.tolist(), fcs=fcs, kind=str(kind), n=n, dt=dt, sample_order=("as-generated" if order is None else "permuted"))
@@ -156,6 +162,8 @@ def spec_probes(ctx, case, out):
     if isinstance(out, str):
         return
     rows = np.array(case["rows"]); name = case["op"]
+    if not np.all(np.isfinite(rows)):
+        return          # the bounds / linearity probes are stated for finite spectra
     scale = float(np.max(rows)) if rows.size else 1.0
     # row independence: smoothing one row alone gives the same row
     if len(rows) > 1:
@@ -197,7 +205,7 @@ def run(ctx):
         comp = impl(c, False)
         interp = impl(c, True) if (i % 3 == 0 or ctx.tier == "thorough") else None
         rows = np.array(c["rows"])
-        scale = float(np.max(rows)) if rows.size else 1.0
+        scale = float(np.max(rows[np.isfinite(rows)])) if np.any(np.isfinite(rows)) else 1.0
         nz = (not isinstance(comp, str)) and bool(np.any(comp != 0))
         ctx.case((c["op"], c["bw"], c["freq"], c["rows"], c["fcs"]), nontrivial=nz and c["kind"] != "const",
                  sample=dict(op=c["op"], bw=c["bw"], nfreq=len(c["freq"]), nrows=len(c["rows"]), fcs=c["fcs"][:4], kind=c["kind"],
@@ -212,7 +220,14 @@ def run(ctx):
         def differs(a, b):
             if isinstance(a, str) or isinstance(b, str):
                 return not (isinstance(a, str) and isinstance(b, str))
-            return a.shape != b.shape or not np.all(np.abs(a - b) <= RTOL * np.maximum(np.abs(a), np.abs(b)) + ATOL_SCALE * scale)
+            if a.shape != b.shape:
+                return True
+            fin = np.isfinite(a) & np.isfinite(b)
+            # non-finite entries (a spectrum may hold inf / NaN bins) must be non-finite of the same kind on both sides
+            same_nonfinite = (np.isnan(a) & np.isnan(b)) | ((a == b) & ~fin)
+            with np.errstate(invalid="ignore"):
+                close_fin = np.abs(a - b) <= RTOL * np.maximum(np.abs(a), np.abs(b)) + ATOL_SCALE * scale
+            return not np.all(np.where(fin, close_fin, same_nonfinite))
         for label, im in (("compiled", comp), ("interpreted", interp)):
             if im is None:
                 continue
